@@ -1,6 +1,6 @@
 (* C02 -- Frame text round-trips.  Statements only. *)
 From Coq Require Import ZArith Ascii String List Bool.
-From RV Require Import Py PyStr Regex GenRegex GenTables M_Frame P_Frame P_Frame2.
+From RV Require Import Py PyStr Regex GenRegex GenTables M_Codecs M_Frame P_Frame P_Frame2 P_FramePartition.
 Import ListNotations.
 Open Scope Z_scope.
 
@@ -36,3 +36,16 @@ Example C02_nonvacuous :
             a_src (f_addrs f) = lit "18:000730" /\ a_dst (f_addrs f) = lit "01:145038" /\
             cmd_from_attrs (lit "RQ") (lit "---") (lit "18:000730") (lit "01:145038") NON_DEV (lit "000A") (lit "0800") = Ok f.
 Proof. eexists. split; [vm_compute; reflexivity|]. split; [reflexivity|]. split; [reflexivity|vm_compute; reflexivity]. Qed.
+
+(* ---- annotations of a logged / received line: frame[ < hint][ * evofw3-err][ # comment] (Packet._partition) ---- *)
+(* whatever follows the first '#' is comment and nothing else: a comment may contain '*', '<' or further '#' without changing the
+   frame and without becoming an error message (which would make the packet invalid on replay) *)
+Theorem C02_comment_is_opaque : forall fr c, lacks "#"%char fr -> lacks "*"%char fr -> lacks "<"%char fr ->
+  pkt_partition (fr ++ "#"%char :: c) = (strip fr, [], strip c).
+Proof. exact comment_is_opaque. Qed.
+Theorem C02_hint_and_comment : forall fr h c, lacks "#"%char fr -> lacks "*"%char fr -> lacks "<"%char fr -> lacks "#"%char h -> lacks "*"%char h ->
+  pkt_partition (fr ++ "<"%char :: h ++ "#"%char :: c) = (strip fr, [], strip c).
+Proof. exact hint_and_comment. Qed.
+Theorem C02_error_before_comment : forall fr e c, lacks "#"%char fr -> lacks "*"%char fr -> lacks "<"%char fr -> lacks "#"%char e ->
+  pkt_partition (fr ++ "*"%char :: e ++ "#"%char :: c) = (strip fr, strip e, strip c).
+Proof. exact error_before_comment. Qed.
